@@ -227,4 +227,73 @@ def run(chk, ctx):
         ans = "try(TestDriver::write_input_and_read_output(driver, DataRowIteratorTestData::generate_default_input_entries(DataRowIteratorTestData::new(test_case))))"
         users = sorted(set(nm.split("::")[-1] for bb, t in tn.calls() for nm in [callee_name(t)[0]] if any(ans == canon(x) for x in P.call_arg_terms(tn, bb)) and not nm.endswith("Deref>::deref") and not nm.endswith("Try>::branch")))
         chk.require(users == ["build_output_indices", "new_with_outputs"], "ORG", "ORG:taint:first-answer-consumers", "the first answer is used only by build_output_indices and new_with_outputs", "the first answer flows into %s" % users)
-    chk.not_decided = ["equality of random streams across runs (exempted by the property)", "the parse-scope vs run-scope hole: a `let` in a zero-trip while body leaves a name that falls through to the outputs map (C10 reports the unbound case as an error item)"]
+    scope_soundness(chk, P)
+    # the gate is only as good as the parser's classification of identifiers: the parse-time scoping rules (shared with C11)
+    from . import c11
+    c11.scoping_rules(chk, P, exclude=("while-opens-no-scope",))   # that one is C01/C11's; here a while frame would be welcome (F18)
+    chk.not_decided = ["equality of random streams across runs (exempted by the property)"]
+
+
+PSB = "parser::stmt::<impl parser::Parser>::parse_stmt_block"
+
+
+def scope_soundness(chk, P):
+    """The static gate trusts the parser: an identifier counts as an output read unless a
+    variable of that name is in the parse-time scope.  That is sound only if every name in the
+    parse-time scope is bound at run time whenever the read executes (otherwise EvalContext::get
+    falls through to the device outputs).  Rule: for every statement kind whose body the
+    interpreter may skip entirely (an edge from its entry state back to the fetch state that
+    does not run the body), the parser must discard the names bound while parsing that body
+    (push_frame before / pop_frame after the recursive block parse)."""
+    from . import c01
+    nwc = P.body(c01.NWC)
+    psb = P.body(PSB)
+    if not (chk.anchor("interpreter", nwc) and chk.anchor("parse_stmt_block", psb)):
+        return
+    A = c01.Automaton(P, nwc)
+    # statement kinds with a body, their entry state, and whether the body can be skipped
+    entry = {}
+    for e in A.edges:
+        if e["state"] == "Iterate" and e["kind"] == "loop" and e["next"]:
+            kinds = [g[2] for g in e["guards"] if g[0] == "variant" and g[1] == "STMT"]
+            if kinds and len(kinds[0]) == 1:
+                entry[kinds[0][0]] = e["next"][0]
+    runs_body = set(e["state"] for e in A.edges if any(x[0] == "next_with_context" for x in e["effects"]))
+    skippable = {}
+    for kind, st in entry.items():
+        # reach Iterate from the entry state without passing a state that runs the body
+        seen, work, skip = set(), [st], False
+        while work:
+            x = work.pop()
+            if x in seen or x in runs_body:
+                continue
+            seen.add(x)
+            for e in A.edges:
+                if e["state"] == x and e["kind"] == "loop" and e["next"]:
+                    if e["next"][0] == "Iterate":
+                        skip = True
+                    else:
+                        work.append(e["next"][0])
+        skippable[kind] = skip
+    chk.require(set(entry) == {"Loop", "While"} and all(skippable.values()), "AUT", "AUT:skippable-bodies", "Loop (max <= 0) and While (condition == 0) may skip their body", "statement kinds with bodies / skippable: %s" % skippable)
+    cfg = P.cfg(psb)
+    # parser side: per constructed Stmt kind with a body, is the recursive block parse bracketed by a frame?
+    for kind in sorted(entry):
+        cons = [(bb, i) for (cb, bb, i, st) in P.constructors("stmt::Stmt::" + kind) if cb is psb]
+        if not chk.anchor("parser builds Stmt::%s" % kind, cons):
+            continue
+        for (cbb, ci) in cons:
+            # body parses feeding this literal: recursive block parses / row parses dominating the literal in the same arm
+            ac = [a for a in pan.arm_context(psb, cbb, cfg) if a.get("enum", "").endswith("TokenKind") and canon(a["on"]) == "Parser::peek(self)"]
+            arm = tuple(ac[-1]["variants"]) if ac else ()
+            def in_arm(bb):
+                a2 = [a for a in pan.arm_context(psb, bb, cfg) if a.get("enum", "").endswith("TokenKind") and canon(a["on"]) == "Parser::peek(self)"]
+                return bool(a2) and tuple(a2[-1]["variants"]) == arm
+            body = [bb for bb, t in psb.calls() if callee_name(t)[0] in (PSB, "parser::stmt::<impl parser::Parser>::parse_data_row") and in_arm(bb) and cfg.dominates(bb, cbb)]
+            push = [bb for bb, t in psb.calls() if callee_name(t)[0] == "framed_map::FramedSet::push_frame" and in_arm(bb)]
+            pop = [bb for bb, t in psb.calls() if callee_name(t)[0] == "framed_map::FramedSet::pop_frame" and in_arm(bb)]
+            framed = bool(body) and all(any(cfg.dominates(pu, bd) for pu in push) and any(cfg.dominates(bd, po) and cfg.dominates(po, cbb) for po in pop) for bd in body)
+            site = "%s:%d" % (psb.file, psb.blocks[cbb]["stmts"][ci]["span"]["line"])
+            chk.require(framed or not skippable.get(kind), "GATE", "GATE:static:%s(%s)-body-bindings-outlive-a-skippable-body" % (kind, "/".join(arm)),
+                        "names bound while parsing the body are discarded (frame) — the parse-time scope stays a subset of the run-time bindings",
+                        "the interpreter may skip the body of Stmt::%s, but names `let`-bound while parsing it stay in the parser's scope: a later read of such a name is not recorded as an output read although it falls through to the device outputs when the body did not run, so try_iter_static accepts a test whose rows depend on the driver" % kind, site)
